@@ -76,6 +76,10 @@ def cases(draw):
         target["decode"] = decode
     frag = draw(sc.frag_tape())
     frag = sc.tame_frag(frag, sum(len(c) for c in chunks) + 1000)
+    if slow:
+        # an operation that is about to time out must not be fed half a packet: with read_timeout_s = 0.3 s the deadline can pass between two fragments
+        # of one header, the library then (rightly) gives up, and what happens to later operations on that connection is C12's subject, not C01's
+        frag = []
     return {
         "api": draw(st.sampled_from(["sync", "async"])),
         "device": {"services": services, "rids": draw(sc.rid_list()), "eager_clse": draw(st.lists(st.booleans(), max_size=4)),
